@@ -120,6 +120,11 @@ func (d *dumper) val(v reflect.Value, depth int) {
 			d.b.WriteString(v.Type().String() + "{opaque}")
 			return
 		}
+		if v.Type().PkgPath() == "time" && v.Type().Name() == "Location" {
+			// time.Local is filled in lazily (under a sync.Once) by the first operation that needs the zone data
+			d.b.WriteString("time.Location{opaque}")
+			return
+		}
 		d.b.WriteString(v.Type().String() + "{")
 		for i := 0; i < v.NumField(); i++ {
 			d.b.WriteString(v.Type().Field(i).Name + ":")
